@@ -25,7 +25,8 @@ import (
 
 // RateCall represents rate function call.
 func RateCall(interval int64, params ...*collections.FloatArray) *collections.FloatArray {
-	if len(params) == 0 {
+	// binaryEval answers a nil array for two arrays without values
+	if len(params) == 0 || params[0] == nil {
 		return nil
 	}
 	result := collections.NewFloatArray(params[0].Capacity())
